@@ -7,7 +7,7 @@
 (* second write 0..48 bytes (crosses 0..3 stripe boundaries from every     *)
 (* fill), third write from {0,1,15,16,17}: 16 x 49 x 5 = 3920 behaviours.  *)
 (***************************************************************************)
-EXTENDS XXH32, TLC, Json
+EXTENDS XXH32Machine, TLC, Json
 
 VARIABLE log      \* history of <<write length, digest after the write>>
 
